@@ -1,3 +1,86 @@
-From DI Require Import PyStr Codec.
-Theorem C20_placeholder : True. Proof. exact I. Qed.
-Print Assumptions C20_placeholder.
+(* C20 - Continuation-line encoding of multi-line text is safe and invertible.
+   Statements only: each theorem is closed by [exact] of a lemma proved in
+   Proofs/CodecFacts.v, and its assumptions are printed. *)
+From Coq Require Import String.
+From Coq Require Import NArith List Bool.
+From DI Require Import PyStr PyStrFacts Codec CodecFacts.
+Import ListNotations.
+Open Scope N_scope.
+
+(* Safety.  For every text, the encoding is a first line followed by lines that
+   each start with a space and contain a non-blank character, and no line holds
+   any str.splitlines boundary (the largest terminator set): an encoded value
+   cannot end the paragraph that contains it. *)
+Theorem C20_safe : forall t : str,
+  exists hd conts,
+    as_formatted_text t = join [LF] (hd :: map (fun l => SP :: l) conts) /\
+    no_lb is_linebreak hd /\
+    Forall (fun l => no_lb is_linebreak l /\ all_space l = false) conts.
+Proof. exact safe_text. Qed.
+Print Assumptions C20_safe.
+
+(* Decode inverts encode: for every text whose lines after the first are blank,
+   or start with U+0020 (verbatim), or start with a non-space character other
+   than a full stop (so: no dot-leading and no tab-indented line), the result is
+   the first line trimmed and the other lines with trailing blanks removed,
+   space-indented lines keeping their indentation. *)
+Theorem C20_decode_encode : forall (t l0 : str) (rest : list str),
+  splitlines t = l0 :: rest -> Forall plain_start rest ->
+  from_formatted_text (as_formatted_text t) = join [LF] (strip l0 :: map rstrip rest).
+Proof. exact decode_encode_text. Qed.
+Print Assumptions C20_decode_encode.
+
+Theorem C20_decode_encode_empty : from_formatted_text (as_formatted_text []) = [].
+Proof. exact decode_encode_empty. Qed.
+Print Assumptions C20_decode_encode_empty.
+
+(* On policy-conformant values (first line, then " ." markers or space-indented
+   non-blank lines, not ending in a marker) encode-after-decode is a fixpoint
+   after one pass. *)
+Theorem C20_encode_decode_fixpoint : forall v : str,
+  policy_value v ->
+  let v' := as_formatted_text (from_formatted_text v) in
+  as_formatted_text (from_formatted_text v') = v'.
+Proof. exact encode_decode_fixpoint. Qed.
+Print Assumptions C20_encode_decode_fixpoint.
+
+(* Description: the synopsis is the first line of the rendering. *)
+Theorem C20_description_first_line : forall v : str,
+  let '(syn, text) := desc_from_value v in
+  no_lb is_linebreak syn /\
+  exists tail, desc_dumps syn text = syn ++ tail /\ (tail = [] \/ exists t, tail = LF :: t).
+Proof. exact desc_first_line. Qed.
+Print Assumptions C20_description_first_line.
+
+(* License: the short name is the first line of the rendering. *)
+Theorem C20_license_first_line : forall v : str,
+  let '(name, text) := lic_from_value v in
+  name <> [] ->
+  exists tail, lic_dumps name text = name ++ tail /\ (tail = [] \/ exists t, tail = LF :: t).
+Proof. exact lic_first_line. Qed.
+Print Assumptions C20_license_first_line.
+
+(* Non-vacuity: concrete inputs meet the hypotheses. *)
+Example C20_decode_encode_applies :
+  let t := lit "GPL-2+" ++ [10] ++ lit "line one  " ++ [10; 10] ++ lit "  verbatim" ++ [10] ++ lit "last" in
+  exists l0 rest, splitlines t = l0 :: rest /\ Forall plain_start rest /\ length rest = 4%nat.
+Proof.
+  eexists; eexists. split; [vm_compute; reflexivity|]. split; [|reflexivity].
+  apply Forall_forall. intros l Hl. simpl in Hl.
+  destruct Hl as [<-|[<-|[<-|[<-|[]]]]]; unfold plain_start;
+    first [left; reflexivity | right; left; reflexivity | right; right; split; [reflexivity|discriminate]].
+Qed.
+
+Example C20_policy_value_applies :
+  policy_value (lit "synopsis" ++ [10] ++ lit " text" ++ [10] ++ lit " ." ++ [10] ++ lit "  verbatim").
+Proof.
+  right. exists (lit "synopsis"), [lit " text"; lit " ."; lit "  verbatim"].
+  split; [reflexivity|]. split; [vm_compute; repeat constructor|]. split.
+  - constructor; [|constructor; [|constructor; [|constructor]]].
+    + right. exists (lit "text"). split; [reflexivity|]. split; [vm_compute; repeat constructor|].
+      split; [reflexivity|]. right. right. split; [reflexivity|discriminate].
+    + left. reflexivity.
+    + right. exists (lit " verbatim"). split; [reflexivity|]. split; [vm_compute; repeat constructor|].
+      split; [reflexivity|]. right. now left.
+  - split; discriminate.
+Qed.
